@@ -33,16 +33,16 @@ type simPrincipal struct {
 }
 
 type simPolicy struct {
-	Preauth      bool     // answer PREAUTH_REQUIRED until a valid PA-ENC-TIMESTAMP arrives
-	Hints        []string // order of hints in the PREAUTH_REQUIRED e-data: "info2", "info", "pwsalt"
+	Preauth      bool          // answer PREAUTH_REQUIRED until a valid PA-ENC-TIMESTAMP arrives
+	Hints        []string      // order of hints in the PREAUTH_REQUIRED e-data: "info2", "info", "pwsalt"
 	Lifetime     time.Duration // maximum lifetime of service tickets
 	TGTLifetime  time.Duration // maximum lifetime of ticket-granting tickets (0: same as Lifetime)
 	RenewLife    time.Duration // 0: never renewable
 	OmitStart    bool          // omit starttime in tickets and replies (legal: defaults to authtime)
 	TGSEncTag25  bool          // tag the TGS-REP enc-part 25 (some implementations do; RFC 4120 5.4.2)
 	ASEncTag26   bool
-	ReplyEtypeLo bool // pick the LAST mutually supported etype of the client's list instead of the first
-	AddrLess     bool // never put addresses into tickets
+	ReplyEtypeLo bool                // pick the LAST mutually supported etype of the client's list instead of the first
+	AddrLess     bool                // never put addresses into tickets
 	Referrals    map[string][]string // spn -> chain of realms to refer through before the final realm issues the ticket
 }
 
